@@ -12,7 +12,7 @@ flavour = {
  "3": "a change in a rarely exercised branch (an option, a capability combination, a boundary value) that ordinary use would not expose at once",
  "4": "a change in bookkeeping that survives across events (a counter, an index, a cache, a flag kept per peer/route/session, cleanup or teardown code) which goes wrong only AFTER a particular earlier event (a previous session, a previous configuration, an earlier error) and stays latent otherwise",
  "5": "a change at the boundary between two components (management API and RIB, RIB and message packer, FSM and server loop, policy engine and table, config and runtime) where each side looks right on its own and ordinary single-component tests cannot see it",
-}[n if n in "12345" else "1"]
+}[{"6": "2", "7": "1", "8": "3", "9": "4"}.get(n, n if n in "12345" else "1")]  # 6-9: second round of flavours 2, 1, 3, 4
 task = (f"""You are helping to evaluate a verification tool for the Go BGP daemon osrg/gobgp. Your job: plant ONE realistic bug.
 
 Work ONLY inside the git worktree {wt} (a checkout of the repository at its current HEAD; Go module github.com/osrg/gobgp/v4). Do not read or write anything under /verif or /repo, and do not look at other /tmp/seed_* directories. The sandbox is offline: for every go command use `export GOFLAGS=-mod=mod GOPROXY=off` and do NOT set GOTOOLCHAIN or GOSUMDB.
